@@ -31,7 +31,8 @@ func TestVerif(t *testing.T) { hutil.Quiet(); sched.Main(t) }
 // oracle    at quiescence: the Stop/Drain caller has returned; after Stop the socket is closed (the address
 //           can be bound again), every accepted connection is closed and no thread of the listener is left;
 //           after Drain no later client is served while established connections stay open; never more than
-//           limit connections served at once, and a connection under the limit is served
+//           limit connections served at once, and a connection under the limit is served; (C20) after Stop the
+//           downstream statistics are conserved: cx_total grew by as much as cx_destroy_total, cx_active is back
 // ---------------------------------------------------------------------------
 
 const c09addr = "127.0.0.1:7000"
@@ -43,6 +44,9 @@ func c09body() {
 	action := []string{"stop", "drain", "drain+stop"}[sched.Choose(sched.ClsInput, 3, "action")]
 	nclients := sched.Choose(sched.ClsInput, 3, "clients")
 	limit := uint32(sched.Choose(sched.ClsInput, 2, "limit"))
+
+	// the statistics scope outlives one execution: the oracle below works on differences
+	total0, destroyed0, active0 := vfDownStats.CxTotal.Value(), vfDownStats.CxDestroyTotal.Value(), vfDownStats.CxActive.Value()
 
 	attempts := 0
 	restore := VerifSetListenFunc(func(network, address string) (net.Listener, error) {
@@ -137,6 +141,14 @@ func c09body() {
 			if b.Name == "Serve" || strings.HasPrefix(b.Name, "listener.go") {
 				sched.Fail("listener-goroutine-left-after-stop / "+b.Name, fmt.Sprintf("%s: parked in %s", tag, b.Kind))
 			}
+		}
+		// C20, downstream side: once stopped, every connection that was counted is counted as destroyed
+		total, destroyed, active := vfDownStats.CxTotal.Value()-total0, vfDownStats.CxDestroyTotal.Value()-destroyed0, int64(vfDownStats.CxActive.Value())-int64(active0)
+		if callerDone && (total != destroyed || active != 0) {
+			sched.Fail("downstream-connection-stats-not-conserved-after-stop", fmt.Sprintf("%s: cx_total +%d, cx_destroy_total +%d, cx_active %+d", tag, total, destroyed, active))
+		}
+		if callerDone && int(total) < served {
+			sched.Fail("served-connection-not-counted", fmt.Sprintf("%s: %d connections served, cx_total +%d", tag, served, total))
 		}
 	} else if drainReturned {
 		// drained: no new connection is served, established ones stay open
